@@ -284,17 +284,18 @@ def run_c01(tier, seed):
     return rec, {'c01': replay_2d, 'fitter': replay_fitter, 'large-grid': lambda r, c_: check_models_independent(r, c_, c_['mode'], c_['M'], c_['gseed'])}
 
 
-def _build_conv_package(d, spec, filt_names, filt_wavs, widx, units_=('mJy', 'au', 'micron')):
+def _build_conv_package(d, spec, filt_names, filt_wavs, widx, units_=('mJy', 'au', 'micron'), ap_counts=None):
     """A per-file style package with ready-made convolved/ files (no SEDs needed for fitting).  `units_`: the units the
     files are STORED in (flux, aperture, wavelength); the content is the same physical table."""
     import os
     from sedfitter.convolved_fluxes import ConvolvedFluxes
     os.makedirs(os.path.join(d, 'convolved'), exist_ok=True)
     fu, au_, wu = (getattr(u, x) for x in units_)
-    for nm, wv, wi in zip(filt_names, filt_wavs, widx):
+    for jf, (nm, wv, wi) in enumerate(zip(filt_names, filt_wavs, widx)):
+        ka = None if (ap_counts is None or spec.apertures is None) else int(ap_counts[jf])       # this band's file tabulates only the first ka apertures
         c = ConvolvedFluxes(wavelength=(wv * u.micron).to(wu), model_names=np.array(spec.par_names()),
-                            apertures=None if spec.apertures is None else (spec.apertures * u.au).to(au_),
-                            flux=(spec.flux[spec.par_order][:, :, wi] * u.mJy).to(fu), error=(spec.error[spec.par_order][:, :, wi] * u.mJy).to(fu))
+                            apertures=None if spec.apertures is None else (spec.apertures[:ka] * u.au).to(au_),
+                            flux=(spec.flux[spec.par_order][:, :ka, wi] * u.mJy).to(fu), error=(spec.error[spec.par_order][:, :ka, wi] * u.mJy).to(fu))
         c.write(os.path.join(d, 'convolved', nm + '.fits'))
     pkg._write_conf(d, spec, 1)
     pkg._write_params(d, spec, spec.par_order)
@@ -789,7 +790,16 @@ def run_c11(tier, seed):
             rec.fail('crash', 'raised %s: %s' % (type(e).__name__, e), case)
         rec.case(key=(mode, tuple(int(x) for x in flags), tuple(case['perm'])), nontrivial=True,
                  sample=dict(mode=mode, flags=[int(x) for x in flags], perm=case['perm'], n_other_fits=len(others)) if t < 3 else None)
-    return rec, {'c11': c11_one}
+    # through real packages: bands sharing an angular aperture but tabulated on different aperture sets (the result must not
+    # depend on the order in which the bands are read)
+    from . import pipe_props
+    for case in pipe_props.shared_aperture_cases(rng, seed, 3 if tier == 'quick' else 40):
+        try:
+            pipe_props.c02_pkg(rec, case)
+        except Exception as e:
+            rec.fail('c11_pkg_crash', 'raised %s: %s' % (type(e).__name__, e), case)
+        rec.case(key=('pkg-shared-aperture', case['n_f'], tuple(case['ap_counts'])), nontrivial=True)
+    return rec, {'c11': c11_one, 'c02-pkg': pipe_props.c02_pkg}
 
 
 REPLAY = {'c01': replay_2d, 'fitter': replay_fitter, 'c02fit': replay_3d, 'c03': c03_one, 'c04': c04_replay, 'c11': c11_one}
